@@ -151,6 +151,9 @@ def main():
             print("CASE  ", l)
             print("MODEL ", m)
             print("IMPL  ", i)
+        if getattr(prop, "diagnose", None):
+            for l in prop.diagnose():
+                print("DIAGNOSIS ", l)
         return 0
 
     # ---- 4. compare + oracle ----
@@ -255,6 +258,20 @@ def main():
         path = V.write_replay(pid, seed, body)
         print("VIOLATION property=%s replay=%s" % (pid, path))
         return 1
+    if proof_broken and not proof["ok"] and getattr(prop, "diagnose", None):
+        diag = prop.diagnose()
+        if diag:
+            body = "property %s violated by the configuration the theorems are about (regenerated from %s on this run):\n" % (pid, V.REPO)
+            for c in sorted(set(d.split(":", 1)[0] for d in diag)):
+                body += "CASE %s\n" % c
+            for d in diag:
+                body += "FAILS %s\n" % d
+            for pb in proof_broken:
+                body += "BROKEN-OBLIGATION %s\n" % pb
+            body += "\nreplay: ./check %s --replay <this file>\n" % pid
+            path = V.write_replay(pid, seed, body)
+            print("VIOLATION property=%s replay=%s" % (pid, path))
+            return 1
     if proof_broken or disagreements:
         body = "property %s: no longer shown to hold; no failing input found\n" % pid
         for pb in proof_broken:
